@@ -81,6 +81,10 @@ CHECKS = {
          "Eight pool keys (Ed25519, RSA-2048/3072, P-224/256/384/521) in every PEM form each supports, six framings, four loader APIs and seven (scheme, hash-algorithm) parameter sets: type, default scheme, public half, presence of private half / certificate and the key id (ref.KeyID = SHA-256 of the reference canonical description) must match what crypto/x509 says the material is; every ordered pair of loads into one Key object must equal a fresh load; one id per pair across forms, different ids across keys; what was loaded from private material signs and its public / certificate form verifies (also with independent crypto), other pairs do not; every single-byte substitution and truncation of three small DER encodings either loads exactly the key crypto/x509 sees or is refused, never a panic.",
          "Trusted: crypto/x509, ref.KeyID/ref.Canon. Outside: key values beyond the pool, SPIFFE SVID conversion.",
          "DESIGN.md §3 C19"),
+ "C20": ("exhaustive enumeration of histories of CLI invocations (step modes x option sets x single tamperings) of the binary built from the current tree, differential against the library called in-process on the same files plus a constructive oracle",
+         "Chains of 1..3 steps performed with `run` or `record start/stop` under 12 option sets (thorough: the full product of five options), layout signed through `in-toto sign` (once or twice), then each of 13 single tamperings followed by `verify`: exit status 0 <=> library verification of the same files succeeds, honest => 0, tampered => non-zero, link files at the names the verifier globs for, no preliminary link left; plus `sign --verify`, `key id`/`key layout` for every pool key file and the 81 `match-products` combinations.",
+         "Trusted: construction of the chains; the library as differential partner (its own properties are C01-C19). Outside: >= 4 steps, multiple tamperings.",
+         "DESIGN.md §3 C20"),
 }
 
 NOT_YET = "check not built yet in this session (planned, see DESIGN.md §3); will be claimed once its driver exists"
